@@ -110,7 +110,8 @@ package pubsub
 //@      (forall t string :: fanoutOnlyT(p, t) ==> p.myRelays[t] == 0)
 
 //@ func (*PubSub).handleAddSubscription
-//@   property C05
+//@   property C05 C14
+//@   ensures answered-once: sent(req.resp) == old(sent(req.resp)) + 1 && lastsent(req.resp) == old(req.sub)
 //@   requires inv: invSub(p) && req != nil && req.sub != nil && req.sub.topic in p.myTopics && p.myTopics[req.sub.topic] != nil
 //@   requires new: !has(p.mySubs, req.sub.topic, req.sub)
 //@   noframe
@@ -133,7 +134,8 @@ package pubsub
 //@   ensures leave-with-withdraw: calls(PubSubRouter.Leave) - old(calls(PubSubRouter.Leave)) == calls((*PubSub).announce) - old(calls((*PubSub).announce))
 
 //@ func (*PubSub).handleAddRelay
-//@   property C05
+//@   property C05 C14
+//@   ensures answered-once: sent(req.resp) == old(sent(req.resp)) + 1
 //@   requires inv: invSub(p) && req != nil && !fanoutOnlyT(p, req.topic)
 //@   noframe
 //@   ensures inv: invSub(p)
@@ -169,3 +171,53 @@ package pubsub
 //@        result.Subscriptions[i].Topicid != nil && result.Subscriptions[i].Subscribe != nil && deref(result.Subscriptions[i].Subscribe) &&
 //@        interested(p, deref(result.Subscriptions[i].Topicid))
 //@   ensures all-interested: forall t string :: interested(p, t) ==> (exists i int :: 0 <= i && i < len(result.Subscriptions) && deref(result.Subscriptions[i].Topicid) == t)
+
+// RandomSubRouter.Publish: recipients are topic peers only, never the forwarder or the author;
+// every floodsub-only topic peer is a recipient; of the randomsub-capable topic peers all are
+// recipients when there are at most RandomSubD of them, otherwise exactly max(RandomSubD,
+// ceil(sqrt(size))) (capped by their number) of them; one push attempt per recipient with an
+// outbound queue, traced as SEND_RPC or DROP_RPC, carrying the RPC around the accepted message.
+//@ func (*RandomSubRouter).Publish
+//@   property C06 C19
+//@   requires msg: msg != nil && msg.Message != nil && rs.p != nil
+//@   noframe
+//@   loop 1 invariant classes: tosend != nil && rspeers != nil && tosend != rspeers &&
+//@        (forall q string :: q in tosend ==> $visited[q] && q != from && q != src && rs.peers[q] == FloodSubID) &&
+//@        (forall q string :: q in rspeers ==> $visited[q] && q != from && q != src && rs.peers[q] != FloodSubID) &&
+//@        (forall q string :: $visited[q] && q != from && q != src ==> (q in tosend) == (rs.peers[q] == FloodSubID) && (q in rspeers) == (rs.peers[q] != FloodSubID)) &&
+//@        (forall q string :: $visited[q] ==> q in tmap) && len(rspeers) <= $count
+//@   loop 2 invariant chosen: tosend != nil && (forall q string :: q in tosend ==> q in tmap && q != from && q != src) &&
+//@        (forall q string :: q in tmap && q != from && q != src && rs.peers[q] == FloodSubID ==> q in tosend)
+//@   loop 3 invariant all-randomsub: tosend != nil && (forall q string :: q in tosend ==> q in tmap && q != from && q != src) &&
+//@        (forall q string :: q in tmap && q != from && q != src && rs.peers[q] == FloodSubID ==> q in tosend) && (forall q string :: $visited[q] ==> q in tosend)
+//@   loop 4 invariant pushes-traced: calls((*rpcQueue).Push) - old(calls((*rpcQueue).Push)) ==
+//@        calls((*pubsubTracer).SendRPC) - old(calls((*pubsubTracer).SendRPC)) + calls((*pubsubTracer).DropRPC) - old(calls((*pubsubTracer).DropRPC))
+//@   loop 4 invariant recipients: out == lastret(rpcWithMessages) && (forall q string :: q in tosend ==> q in tmap && q != from && q != src)
+//@   loop 4 step one-attempt-per-recipient: forall q string :: q == p ==> calls((*rpcQueue).Push) - iter(calls((*rpcQueue).Push)) == ite(q in rs.p.peers, 1, 0)
+//@   at call Push assert recipient-allowed: p in tmap && p != from && p != src && $arg0 == rs.p.peers[p] && $arg1 == out && !$arg2 &&
+//@        len(out.RPC.Publish) == 1 && out.RPC.Publish[0] == msg.Message
+//@   at call SendRPC assert after-success: lastret((*rpcQueue).Push) == nil && $arg1 == out && $arg2 == p
+//@   at call DropRPC assert after-failure: lastret((*rpcQueue).Push) != nil && $arg1 == out && $arg2 == p
+//@   at call shufflePeers assert target-size: target >= RandomSubD && target <= len(rspeers)
+
+// Request/response protocol with the API goroutines (C14): a handler answers the request it was
+// given exactly once on the request's own response channel, on every path.
+//@ func (*PubSub).handleAddTopic
+//@   property C05 C14
+//@   requires req: req != nil && req.topic != nil && p.myTopics != nil
+//@   noframe
+//@   ensures answered-once: sent(req.resp) == old(sent(req.resp)) + 1
+//@   ensures registered: old(req.topic.topic) in p.myTopics && lastsent(req.resp) == p.myTopics[old(req.topic.topic)]
+//@   ensures existing-kept: old(req.topic.topic in p.myTopics) ==> p.myTopics[old(req.topic.topic)] == old(p.myTopics[req.topic.topic])
+//@   ensures others: forall t string :: t != old(req.topic.topic) ==> (t in p.myTopics) == old(t in p.myTopics) && p.myTopics[t] == old(p.myTopics[t])
+
+//@ func (*PubSub).handleRemoveTopic
+//@   property C05 C14
+//@   requires req: req != nil && req.topic != nil && p.myTopics != nil
+//@   requires keyed-by-name: forall t string :: t in p.myTopics && p.myTopics[t] != nil ==> p.myTopics[t].topic == t
+//@   noframe
+//@   ensures answered-once: sent(req.resp) == old(sent(req.resp)) + 1
+//@   ensures refused-while-in-use: old(req.topic.topic in p.myTopics && p.myTopics[req.topic.topic] != nil &&
+//@        (len(p.mySubs[req.topic.topic]) > 0 || p.myRelays[req.topic.topic] > 0 || len(p.myTopics[req.topic.topic].evtHandlers) > 0)) ==>
+//@        lastsent(req.resp) != nil && p.myTopics[old(req.topic.topic)] == old(p.myTopics[req.topic.topic]) && old(req.topic.topic) in p.myTopics
+//@   ensures others: forall t string :: t != old(req.topic.topic) ==> (t in p.myTopics) == old(t in p.myTopics) && p.myTopics[t] == old(p.myTopics[t])
